@@ -64,8 +64,8 @@ TEXT = {
  },
  "C09": {
   "technique": "property-based testing (rapid), stateful: generated tables mixing good / questionable / bad, IPv4 / IPv6 entries, probed with find_node / get_peers / get for crafted targets and every want list; each reply judged against the table snapshot, an independent BEP 5 classification and the harness's record of who answered",
-  "level": "Soundness (only good, answered, family-matching, distinct, <= 8 contacts, never the responder) and the bucket-order / completeness clauses are checked on every probe reply (each probe repeated 4 times because the choice within the last bucket depends on map iteration).",
-  "note": "The method's other ID field is set to a different value in half the probes so that using the wrong field is visible; completeness for get_peers applies because no peer store is configured in these histories.",
+  "level": "Soundness (only good, answered, family-matching, distinct, <= 8 contacts, never the responder) and the bucket-order / completeness clauses are checked on every probe reply (each probe repeated 4 times because the choice within the last bucket depends on map iteration). Histories include read-only queries from known contacts, the node's own find_node calls as liveness evidence, probes sent from the address and under the ID of a table entry, and - with the bundled peer store in a third of the histories - a peer of one family announcing itself for the probed infohash first.",
+  "note": "The method's other ID field is set to a different value in half the probes so that using the wrong field is visible; completeness for get_peers applies whenever the reply carries no `values` (a reply with peers need not carry contacts as well).",
   "ref": "DESIGN.md section 4, C09",
  },
  "C12": {
